@@ -284,6 +284,8 @@ class ObsLib(Lib):
     def f_np__sum(self, interp, args, kwargs, node):
         if isinstance(args[0], OA):
             return OV(args[0].val)
+        if isinstance(args[0], OV):
+            return args[0]
         return Lib.f_np__sum(self, interp, args, kwargs, node)
 
     def f_np__mean(self, interp, args, kwargs, node):
